@@ -784,6 +784,10 @@ def series_computation(
     if operator is None:
         operator = matmul
 
+    # The computed series are looked up by name at evaluation time, keep them in a
+    # dictionary of this computation and leave the caller's dictionary as it is.
+    series = dict(series)
+
     # For now we demand that all series are similar because outputs are like inputs.
     dimension_names = next(iter(series.values())).dimension_names
     if any(series.dimension_names != dimension_names for series in series.values()):
